@@ -1,6 +1,7 @@
 # Pylint does not work with dynamically generated types, which @operator does
 # pylint: disable=isinstance-second-argument-not-valid-type
 
+import copy
 import struct
 
 from .architecture import instruction_opcodes
@@ -73,20 +74,31 @@ class RegisterModeOperandStub:
         # Hoisting. 'a+b(c)' is parsed as 'a+(b(c))', not as '(a+b)(c)'. This is
         # great for function calls, but terrible for index addressing. Hence
         # we're 'hoisting' registers up here.
+        # The operand tree is shared between all compilations of the same
+        # instruction (e.g. iterations of '.repeat'), so it is never modified in
+        # place: rewritten nodes are shallow copies.
         def hoist(token):
             if isinstance(token, operators.InfixOperator) and not isinstance(token, operators.call):
-                token.rhs = hoist(token.rhs)
+                rhs = hoist(token.rhs)
+                if rhs is not token.rhs:
+                    token = copy.copy(token)
+                    token.rhs = rhs
                 if isinstance(token.rhs, operators.call) and try_as_register(token.rhs.rhs, state) is not None:
                     register = token.rhs.rhs
                     ctx_end = token.ctx_end
+                    token = copy.copy(token)
                     token.rhs = token.rhs.lhs
                     token.ctx_end = token.rhs.ctx_end
                     return operators.call(token.ctx_start, ctx_end, token, register)
             elif isinstance(token, operators.PrefixOperator):
-                token.operand = hoist(token.operand)
+                operand = hoist(token.operand)
+                if operand is not token.operand:
+                    token = copy.copy(token)
+                    token.operand = operand
                 if isinstance(token.operand, operators.call) and try_as_register(token.operand.rhs, state) is not None:
                     register = token.operand.rhs
                     ctx_end = token.ctx_end
+                    token = copy.copy(token)
                     token.operand = token.operand.lhs
                     token.ctx_end = token.operand.ctx_end
                     return operators.call(token.ctx_start, ctx_end, token, register)
